@@ -1,6 +1,6 @@
 #!/bin/bash
 # runs every quick check on the current tree, one after the other (they share the Lean build), and prints one line each
-cd /verif
+cd ${VROOT:-/verif}
 rm -f replays/*.json
 for i in $(seq -w 1 20); do
   timeout 1500 ./check C$i --tier ${1:-quick} 2>&1 | grep -v "^WARNING conda" | grep "VIOLATION\|^\[C\|internal error\|KNOWN-FINDING" | cut -c1-160
